@@ -43,3 +43,19 @@ Proof.
     destruct (is_bounded k); inversion E; reflexivity.
   - inversion E; reflexivity.
 Qed.
+
+(* since LookupPreset enforces the table limit, the table part of [cfg_ok] follows from the stream
+   having been created: what remains to assume is a logical type the reader knows and an empty flow *)
+From PJ.Proofs Require Import OptionsProofs.
+Theorem api_round_trip_created (c : stream_class) (o : soptions) (d : sdata) (s' : stream) (evs : list tev) (grouped : bool) :
+  api_encode c Generic o d = Ok (s', evs) -> raised evs = None ->
+  (forall s, stream_new c Generic o = Ok s -> known_logical (st_logical s) = true /\ fl_rows (st_flow s) = []) ->
+  (c = GraphStream -> forallb wf_quad (d_stmts d) = true) ->
+  Forall small (emitted evs) ->
+  let r := api_parse Generic grouped false (write_delimited (emitted evs)) in
+  flat_events r = ns_events o d ++ events_of c d /\ pr_end r = PEnd.
+Proof.
+  intros Henc Hraise Hcfg Hwf Hsmall. apply (api_round_trip c o d s' evs grouped Henc Hraise); [|exact Hwf|exact Hsmall].
+  intros s Hnew. destruct (Hcfg s Hnew) as [Hk Hf]. destruct (stream_new_tables_ok _ _ _ _ Hnew) as (A & B & C).
+  split; [|exact Hf]. unfold cfg_ok. auto.
+Qed.
